@@ -43,6 +43,8 @@ func init() {
 				c14Packet(c, c14Case{K: "packet", Name: "(then)", E: cs.Then})
 			case "packet":
 				c14Packet(c, cs)
+			case "maporder":
+				c14MapOrder(c, cs.E)
 			case "setter":
 				c14Setter(c, cs.T, cs.N)
 			case "overwrite":
@@ -158,6 +160,17 @@ func runC14(c *engine.Ctx) {
 				}
 			}
 		}
+	}
+	// map iteration order (instrumented build): encoding and attribute lookup must not depend on it
+	if engine.InstrumentedBuild() {
+		for mask := 0; mask < 128; mask++ {
+			if !c.Mine() {
+				continue
+			}
+			c14MapOrder(c, &ref.EAP{Code: 1, ID: uint8(mask), Method: 50, Sub: 1, AKA: subset(mask, vals(7, 9, 20))})
+		}
+	} else {
+		c.Note("map-order seam not available in a plain build")
 	}
 	// setter sizes
 	for _, t := range ref.AKASettable {
@@ -425,4 +438,51 @@ func c14Overwrite(c *engine.Ctx, seq []ref.AKAAttr) {
 		return
 	}
 	c.Distinct(engine.Hash64(b, []byte("ow")))
+}
+
+// c14MapOrder: under every map iteration order the seam can produce, Marshal gives the same bytes,
+// GetAttr finds every attribute, and the decoded packet is the same.
+func c14MapOrder(c *engine.Ctx, e *ref.EAP) {
+	cs := c14Case{K: "maporder", Name: "aka.maporder", E: e}
+	le, err := univ.BuildEAP(e)
+	if err != nil {
+		return
+	}
+	var first []byte
+	bad := ""
+	// each library call is explored on its own (the calls are independent; exploring their product would
+	// only repeat the same single-call behaviours)
+	execs, capped := engine.ForAllMapOrders(20000, func([]int) {
+		c.Evals++
+		b, err := le.Marshal()
+		if err != nil {
+			bad = "marshal error under some iteration order: " + err.Error()
+			return
+		}
+		if first == nil {
+			first = b
+		} else if !bytes.Equal(first, b) {
+			bad = fmt.Sprintf("Marshal output depends on the map iteration order: %x vs %x", trunc(first, 40), trunc(b, 40))
+		}
+	})
+	ak := le.EapTypeData.(*eap.EapAkaPrime)
+	for _, a := range e.AKA {
+		a := a
+		n, cp := engine.ForAllMapOrders(20000, func([]int) {
+			c.Evals++
+			got, gerr := ak.GetAttr(eap.EapAkaPrimeAttrType(a.T))
+			if gerr != nil || !bytes.Equal(got.GetValue(), a.V) {
+				bad = fmt.Sprintf("GetAttr(%d) depends on the map iteration order", a.T)
+			}
+		})
+		execs += n
+		capped = capped || cp
+	}
+	c.Count("map_order_executions", execs)
+	if capped {
+		c.Cap("map-order executions capped at 20000 for one packet")
+	}
+	if bad != "" {
+		c.Violate("map-order-dependence", bad, cs)
+	}
 }
